@@ -114,6 +114,18 @@ def special_cause(d, rid, pos, name, sites):
         own = d._own_iter = dyn_common.own_iterable_reads(d.tree)
     if pos in own and all(ins.sites.get(s, ('', ''))[1] == 'comp' for s in sites):
         return 'comprehension-variable-read-in-its-own-iterable'
+    # several listed causes at once: every run-time provider of the read is invisible for a listed reason of its own - a binding
+    # routed to the module by a global declaration (read at module level), a target of a later clause or a walrus further right in
+    # the same comprehension (previous trip)
+    prev = d.__dict__.get('_prev_trip')
+    if prev is None:
+        prev = d._prev_trip = dyn_common.previous_trip_walrus_reads(d.tree)
+    if real and len(real) == len(sites) and (pos in own or pos in prev):
+        module_read = ins.module_level(ins.read_scope[rid])
+        explained = [s for s in real if (module_read and s in ins.global_sites) or (pos in own and ins.sites[s][1] == 'comp')
+                     or tuple(s) in prev.get(pos, ())]
+        if len(explained) == len(real) and any(tuple(s) in prev.get(pos, ()) or ins.sites[s][1] == 'comp' for s in real):
+            return 'comprehension-variable-read-in-its-own-iterable'
     return None
 
 
